@@ -566,14 +566,15 @@ class NDNApp:
         else:
             node_name = final_name
             implicit_sha256 = b''
-        node: InterestTreeNode = self._pit.setdefault(node_name, InterestTreeNode())
         deadline = utils.timestamp()
         if interest_param.lifetime is not None:
             deadline += interest_param.lifetime
         else:
             deadline += DEFAULT_LIFETIME
-        node.append_interest(future, deadline, interest_param, validator, implicit_sha256)
+        # Send first: if the face refuses the packet the exception goes to the caller and nothing is left pending
         self.face.send(raw_interest)
+        node: InterestTreeNode = self._pit.setdefault(node_name, InterestTreeNode())
+        node.append_interest(future, deadline, interest_param, validator, implicit_sha256)
         return self._wait_for_data(future, deadline, node_name, node)
 
     async def _wait_for_data(self, future: aio.Future, deadline: int, node_name: enc.FormalName,
